@@ -195,8 +195,8 @@ theorem sendDepLoop_spec (S : Spec P c) (pni : Nat) (req : Pdu) (hR : S.R req) (
           | error e2 => exact Post.err S ha.1 (ha.2 e2 rfl)
         · -- transmission
           dsimp only
-          have ha := reqRetrans_spec S pni _ 2 a1 hq
-          generalize reqRetrans P c pni _ 2 a1 = r2 at ha ⊢
+          have ha := reqRetrans_spec S pni (decide (req.fmt? = some fMORE)) 2 a1 hq
+          generalize reqRetrans P c pni (decide (req.fmt? = some fMORE)) 2 a1 = r2 at ha ⊢
           obtain ⟨a2, u⟩ := r2
           cases u with
           | ok res => exact nakCheck_post S ha.1 (ha.2.2 res rfl).1 (ha.2.2 res rfl).2
